@@ -61,6 +61,13 @@ CLAIMED = {
         note=TB + "; numpy.linalg.inv is an uninterpreted function (assumed contract); the algebraic laws T(a,a)=I, T(a,b)T(b,a)=I, T(a,c)=T(a,b)T(b,c) follow from the product spec by matrix algebra and are only evaluated numerically in the bounded tier; symbolic tier runs repair_rigid=None, the default is covered by seeded random histories on the real classes.",
         technique="contract-based deductive verification of a representation invariant (ghost abstract view, per-operation preservation from arbitrary invariant states on the mirrored source, symbolic matrices, z3) + bounded random histories on the real classes",
     ),
+    "C10": dict(
+        category="proof",
+        text="Scene.bounds_corners and Scene.bounds are proved on a ghost self for EVERY vertex count N and every real affine world matrix: every placed vertex W.p lies inside the reported corners of its node (nodes whose geometry is missing are skipped), the scene bounds contain and attain the node corners (lambda arrays, extremum axioms; graph[node] is C09's contract). The statement as a whole is checked bounded on the real classes against its own oracle - a copy of each geometry placed with its node's world transform: nine scenes (single, instanced x3, nested frames, scaled / similarity nodes, mirrored node, unused geometry, identical twin geometries, face-less member, mesh + point cloud + path) x 14 quantities (bounds, extents, centroid, scale, triangles, triangles_node, area, volume, center_mass, moment_inertia, dump, dump(concatenate), to_mesh, convex_hull) read fresh and again after the same edit of every geometry, a single-vertex edit, a graph edit and a node removal (scene cache); copy, scaled (uniform x3, per-axis x2), apply_transform, subscene, +, rezero, convert_units preserve the placements (moved accordingly) and leave the source scene's placements, geometry hashes and edge list untouched. Three defects found this way were repaired, three are recorded known findings.",
+        design_ref="DESIGN.md §4 C10",
+        note=TB + "; the whole-scene statement is bounded (fixed scene family); qhull on both sides for the hull.",
+        technique="contract-based deductive verification (lambda-array symbolic execution of bounds_corners/bounds on a ghost self) + bounded contract evaluation on the real classes against the explicit-placement oracle",
+    ),
     "C13": dict(
         category="proof",
         text="Run-length codecs against the abstract view dec(runs)[p] (value of the run containing position p, p a universally quantified integer): merge_brle_lengths, rle_to_brle (incl. its ValueError condition), merge_rle_lengths, brle_logical_not, brle_reverse, rle_reverse, brle_strip, rle_strip, brle_to_rle, brle_length/rle_length are proved lossless for EVERY non-negative integer count at each fixed run count 1..5 (bounded shape), split_long_brle/rle_lengths for uint8 with every count below 3*255 (case split on the quotient). The lazy index maps (FlippedEncoding, TransposedEncoding, ShapedEncoding, FlattenedEncoding): _to_base_indices equals numpy's flip / transpose / reshape index arithmetic for every integer index inside the shape and _from_base_indices is its inverse (symbolic indices, concrete small shapes incl. 3-cycles). ops.indices_to_points/points_to_indices are mutually inverse and voxel Transform.transform_points = M.i, unit_volume = det for every real axis-aligned transform (proof, unbounded); inverse_transform_points/rounding in the thorough tier. Bounded tier: every boolean array of shapes (5,),(2,3),(2,2,2) and integer arrays over {0,1,2} through Dense/Sparse/RLE/BRLE and every flip/transpose/flatten/reshape view, 11 reads each against the dense numpy array; every boolean sequence up to length 9 and ternary sequence up to length 6 through every codec, gather (array and list indices) and mask function; runs at max-1, max, max+1, 2max+1 for every count dtype. Nine defects found this way were repaired (fix: commits), four are recorded known findings.",
